@@ -25,6 +25,7 @@ type GNode struct {
 	Kids []int  `json:"kids,omitempty"`
 	Memo bool   `json:"memo,omitempty"`
 	Name string `json:"name,omitempty"`
+	Tok  string `json:"tok,omitempty"` // explicit .Token(...) of a sequence
 }
 
 type Grammar struct {
@@ -312,6 +313,9 @@ func build(g *Grammar, o *buildOpts) *built {
 			panic("build: unknown op " + nd.Op)
 		}
 		if seq != nil {
+			if nd.Tok != "" {
+				seq = seq.Token(nd.Tok)
+			}
 			if nd.Arg == "single" {
 				seq = seq.HandleResult(combinator.ReturnSingle())
 			} else if nd.Arg == "custom" {
@@ -320,7 +324,9 @@ func build(g *Grammar, o *buildOpts) *built {
 			if o.Interp && nd.Op != "sentence" {
 				seq = seq.Bind(concatInterp)
 			} else if o.LibInterp && nd.Op != "sentence" {
-				if nd.Op == "sepby" || nd.Op == "sepby1" {
+				if (nd.Op == "sepby" || nd.Op == "sepby1") && i%2 == 1 {
+					seq = seq.Bind(interpreter.Object()) // (an empty list evaluates to {} whatever the element shape)
+				} else if nd.Op == "sepby" || nd.Op == "sepby1" {
 					seq = seq.Bind(interpreter.Array())
 				} else {
 					seq = seq.Bind(evalAllInterp)
@@ -565,6 +571,9 @@ func (x *gen) leaf() int {
 		}
 	case r.Chance(1, 10):
 		n.Op = "empty"
+		if r.Chance(1, 3) {
+			n.Op = "end" // parser.End() as an ordinary element (zero width, only at the end of the input)
+		}
 	case r.Chance(1, 4):
 		n.Op = "op"
 		l := r.Range(1, 2)
@@ -625,9 +634,15 @@ func (x *gen) node(depth int) int {
 		case "seq", "seqtry", "seqfoa":
 			nk = r.Range(1, 3)
 			if r.Chance(1, 6) {
+				n.Tok = fmt.Sprintf("T%d", idx)
+			}
+			if r.Chance(1, 6) {
 				n.Arg = "single"
 			} else if r.Chance(1, 8) {
 				n.Arg = "custom" // user-supplied result handler
+			}
+			if n.Arg == "single" && n.Tok == "" && r.Chance(1, 2) {
+				n.Tok = fmt.Sprintf("T%d", idx)
 			}
 		case "any", "choice":
 			nk = r.Range(2, 3)
